@@ -126,6 +126,53 @@ CHECKS = {
         "Found and repaired D5, D6 (header handling) and D7 (pop on caller's list).",
         "DESIGN.md 6/C18",
     ),
+    "C09": (
+        "metamorphic property-based testing over every public quantity (exhaustive coordinate-type assignments per generated "
+        "basis, generated transformations and component conventions) plus exhaustive model-based testing of the four assembly "
+        "classes on labelled dummy blocks",
+        "Generated bases x every 2^n type assignment x 23 public quantities compared with the all-Cartesian result contracted "
+        "with independent (R4) Cartesian->spherical matrices; transformation law incl. rectangular T; shell subclasses with "
+        "permuted/signed conventions (all for l<=1, drawn above); assembly classes checked against a ground-truth tensor for "
+        "all 1-2-shell shapes (3-shell sampled; four-index: all up to 3 shells), every construct_array_* path.",
+        "Relations judged at 1e-9 (ERI 2e-6) of library-derived natural magnitudes. Trusts vf/ref R4.",
+        "DESIGN.md 6/C09",
+    ),
+    "C11": (
+        "metamorphic property-based testing: every permutation of the shells of generated bases for every public quantity; "
+        "index-symmetry predicates; independent block orientations (2 per two-index kernel, 8 per ERI quartet)",
+        "Generated bases with every shell ordering enumerated; results must change only by the block permutation; symmetric / "
+        "Hermitian / eight-fold symmetry of results; shell blocks computed in every orientation independently, for generated "
+        "quartets and for the fixed ill-conditioned list of C04.",
+        "ERI relations at 2e-6 of the Schwarz scale (library-derived), others 1e-9/1e-8 of natural magnitudes.",
+        "DESIGN.md 6/C11",
+    ),
+    "C13": (
+        "metamorphic property-based testing: generated equivalent rewritings of a shell (column split, all primitive "
+        "permutations, primitive split, column scaling by +-1e-6..1e6) for every public quantity; block linearity of every kernel",
+        "Every public quantity on the rewritten basis must equal the original (sign flip of exactly one column for negative "
+        "factors, density matrix pulled back); un-normalised blocks of the nine kernel classes additive and homogeneous in the "
+        "coefficient matrix of each argument.",
+        "Domain excludes contractions cancelling below 2% (generator repairs by construction).",
+        "DESIGN.md 6/C13",
+    ),
+    "C17": (
+        "property-based testing with validity predicates (eigenvalue signs, element bounds, Schwarz inequality) on arrays "
+        "returned for generated bases incl. nearly linearly dependent ones",
+        "Generated bases (plain, exponent-scaled duplicates down to 1e-8, displaced duplicates down to 1e-6 bohr), positive "
+        "charges anywhere: S PSD with |S_ab|<=1, T PSD, V(q>0) NSD, ERI pair matrix symmetric PSD with Schwarz bound, at the "
+        "rounding allowances the property states.",
+        "Trusts numpy.linalg.eigvalsh.",
+        "DESIGN.md 6/C17",
+    ),
+    "C20": (
+        "property-based differential testing against the documented cutoff formula with shell pairs placed at (1+-1e-9) x cutoff; "
+        "monotonicity and conservativeness predicates",
+        "Generated bases/tolerances with a pair at the cutoff boundary: kept blocks bit-identical, removed blocks exactly zero, "
+        "None = no screening, monotone in the tolerance, removed s-s elements below the analytic bound, bool rejected, "
+        "tolerance forwarded through the transformation path.",
+        "Pairs within 1e-12 (relative) of the cutoff are not judged.",
+        "DESIGN.md 6/C20",
+    ),
 }
 
 NOT_YET = "check not built yet in this revision (planned, see DESIGN.md section 6)"
